@@ -18,6 +18,9 @@ import entity_query_language.cache_data as CD
 import importlib
 P = importlib.import_module('entity_query_language.predicate')
 from entity_query_language.rxnode import RWXNode
+import logging
+import entity_query_language as _EQL
+_EQL.logger.setLevel(logging.CRITICAL)   # the library's cartesian-product warnings are not an observable here
 
 
 def _find_lru_wrappers():
